@@ -266,6 +266,31 @@ pub fn chaos(profile: &str, seed: u64, thorough: bool) -> Scenario {
     b.latency(0.08);
     let rounds_t = b.r.range(15, if thorough { 60 } else { 35 });
     b.sc.duration_us = b.t_us * rounds_t;
+    // Byzantine authorities within the stake budget f (played by the adversary module).
+    let byz_profile = matches!(profile, "C01" | "C03" | "C05" | "C09" | "C19" | "C10");
+    if byz_profile && b.r.chance(if profile == "C01" { 0.6 } else { 0.35 }) {
+        let budget = b.max_faulty_stake();
+        b.sc.byz = b.faulty_set(budget, 2);
+        let mut lvl = |r: &mut Rng| *r.pick(&[0.0, 0.2, 0.5, 1.0]);
+        b.sc.adv = AdvCfg {
+            seed: b.r.next(),
+            equivocate: lvl(&mut b.r),
+            vote_all: lvl(&mut b.r),
+            withhold: lvl(&mut b.r),
+            stale_qc: lvl(&mut b.r),
+            forge_qc_from_tapped: lvl(&mut b.r),
+            replay: lvl(&mut b.r),
+            silent: *b.r.pick(&[0.0, 0.1, 0.3]),
+            low_timeouts: lvl(&mut b.r),
+            ack: *b.r.pick(&[0.0, 0.5, 1.0]),
+        };
+        let step = b.t_us / 2;
+        let mut t = step;
+        while t < b.sc.duration_us {
+            b.sc.events.push(TimedEvent { t_us: t, kind: EventKind::AdvTick });
+            t += step;
+        }
+    }
     let stagger = if b.r.chance(0.3) { b.t_us / 2 } else { 0 };
     b.boots(stagger);
     let dur = b.sc.duration_us;
@@ -606,8 +631,15 @@ pub fn c07(seed: u64, thorough: bool) -> Scenario {
     // Unresponsive first sync target: one peer's consensus port is mute towards the lagger.
     if b.r.chance(0.5) {
         let p = (lagger + 1 + b.r.below(b.sc.n - 1)) % b.sc.n;
-        let until = heal + b.r.range(b.t_us, 4 * b.t_us);
-        b.sc.net.rules.push(Rule { t0_us: heal, t1_us: until, src: bit(lagger), dst: bit(p), bidir: true, svc_mask: 1 << SVC_CONSENSUS, kind: RuleKind::Stall, reply_only: false, label: "mute-sync-target".into() });
+        if b.r.chance(0.5) {
+            let until = heal + b.r.range(b.t_us, 4 * b.t_us);
+            b.sc.net.rules.push(Rule { t0_us: heal, t1_us: until, src: bit(lagger), dst: bit(p), bidir: true, svc_mask: 1 << SVC_CONSENSUS, kind: RuleKind::Stall, reply_only: false, label: "mute-sync-target".into() });
+        } else {
+            // The peer never sees anything the lagger sends to its consensus port (requests, votes,
+            // timeouts are held for ever) while its own proposals still reach the lagger: sync
+            // requests addressed to it stay unanswered and must be retried with the others.
+            b.sc.net.rules.push(Rule { t0_us: heal.saturating_sub(b.t_us), t1_us: FOREVER, src: bit(lagger), dst: bit(p), bidir: false, svc_mask: 1 << SVC_CONSENSUS, kind: RuleKind::Stall, reply_only: false, label: "deaf-sync-target".into() });
+        }
     }
     if b.r.chance(0.4) {
         b.clock_jumps(2);
@@ -795,4 +827,81 @@ pub fn c14_random(seed: u64, thorough: bool) -> Scenario {
         sc.net.pending_write_prob = *r.pick(&[0.0, 0.1]);
     }
     sc
+}
+
+/// C16: the store under concurrent handles.
+pub fn c16(seed: u64, thorough: bool) -> Scenario {
+    use crate::storew::{StCfg, StOp};
+    let mut b = Builder::new("C16", seed);
+    b.sc.world = "store".into();
+    b.sc.n = 1;
+    b.sc.stakes = vec![1];
+    b.sc.params = vec![NodeParams::default()];
+    let nclients = b.r.range(2, 6) as usize;
+    let nkeys = b.r.range(1, 4) as u8;
+    let max_ops = if thorough { 12 } else { 8 };
+    let mut val = 1u32;
+    let mut clients = Vec::new();
+    let notify_heavy = b.r.chance(0.5);
+    for _ in 0..nclients {
+        let k = b.r.range(2, max_ops);
+        let mut ops = Vec::new();
+        for _ in 0..k {
+            if b.r.chance(0.6) {
+                ops.push(StOp::Yield { n: b.r.range(1, 6) as u8 });
+            }
+            let key = b.r.below(nkeys as usize) as u8;
+            let x = b.r.below(10);
+            let op = if x < 4 {
+                val += 1;
+                StOp::Write { key, val }
+            } else if x < (if notify_heavy { 5 } else { 7 }) {
+                StOp::Read { key }
+            } else {
+                // Sometimes a key that is never written (its waiters must stay pending).
+                let key = if b.r.chance(0.1) { 7 } else { key };
+                StOp::Notify { key }
+            };
+            ops.push(op);
+        }
+        clients.push(ops);
+    }
+    b.sc.script = serde_json::to_value(&StCfg { clients, reopen: true }).unwrap();
+    b.tokio_knobs();
+    b.finish()
+}
+
+/// C15: hostile bytes on all three ports of every node, then functional probes.
+pub fn c15(seed: u64, thorough: bool) -> Scenario {
+    let mut b = Builder::new("C15", seed);
+    b.committee(&[5], false);
+    // One authority is played by the harness: it is silent (so the other four are all needed)
+    // and lends its key for well-formed messages with absurd content.
+    b.sc.byz = vec![b.r.below(5)];
+    b.sc.adv = AdvCfg { seed: 1, ack: 1.0, silent: 1.0, ..Default::default() };
+    // Short round timeouts: every fifth round is led by the silent authority and times out.
+    b.params((300, 600), false);
+    let lo = b.r.range(2_000, 6_000);
+    b.sc.net.base_lat_us = (lo, lo + b.r.range(500, 8_000));
+    b.sc.net.jitter_us = 1_000;
+    b.boots(0);
+    let hostile_from = 400_000u64;
+    let hostile_to = if thorough { 4_000_000 } else { 2_500_000 };
+    let probe_at = hostile_to + 500_000;
+    b.sc.duration_us = probe_at + 8_000_000;
+    let dur = b.sc.duration_us;
+    b.load(40, 50_000, dur - 500_000, (16, 300), 3);
+    let honest: Vec<usize> = (0..5).filter(|i| b.sc.honest(*i)).collect();
+    let count = b.r.range(20, if thorough { 200 } else { 80 });
+    for g in 0..count {
+        let t = b.r.range(hostile_from, hostile_to);
+        let node = *b.r.pick(&honest);
+        let svc = *b.r.pick(&[SVC_CONSENSUS, SVC_CONSENSUS, SVC_MEMPOOL, SVC_TX]);
+        b.sc.events.push(TimedEvent { t_us: t, kind: EventKind::Hostile { from: 40 + (g % 8) as usize, node, svc, gen: g } });
+    }
+    for node in honest {
+        b.sc.events.push(TimedEvent { t_us: probe_at, kind: EventKind::ServiceProbe { node } });
+    }
+    b.tokio_knobs();
+    b.finish()
 }
